@@ -133,16 +133,16 @@ PROPS["C19"] = dict(
 )
 
 PROPS["C20"] = dict(
-    suites=["c20", "c20c"],
+    suites=["c20", "c20c", "c20w"],
     gen=[("c20", "ServlinVerif/Gen/C20Tables.lean")],
     lean_modules=["ServlinVerif.Props.C20", "ServlinVerif.Props.C05"],
     audit="Audit/C20.lean",
-    shards={"c20": 1},
+    shards={"c20": 1, "c20w": 2},
     rule="every status-named constructor found by scanning src/response.rs (executed; exhaustive); every HttpError variant (exhaustive, "
          "compile-time exhaustive match in the harness) x payload strings over arbitrary text incl. CR/LF, paths, non-ASCII (random). "
          "Non-trivial = status rows, and error cases carrying a payload.",
-    nontrivial=lambda tag, args, obs: tag in ("c20s", "c05") or ":" in args[0],
-    klass=lambda tag, args, obs: (tag + ":" + " ".join(obs.split(" ")[:2])) if tag != "c05" else "c20c:" + args[1].split(";")[1].split(":")[1][:1] + "xx",
+    nontrivial=lambda tag, args, obs: tag in ("c20s", "c05", "c04") or ":" in args[0],
+    klass=lambda tag, args, obs: "c20w:on-the-wire" if tag == "c04" else ((tag + ":" + " ".join(obs.split(" ")[:2])) if tag != "c05" else "c20c:" + args[1].split(";")[1].split(":")[1][:1] + "xx"),
     explanation="Tables statusTable/errorTable are regenerated by executing the code on every run and re-checked by the kernel "
                 "(C20_status_named, C20_model_matches_code); C20_error_classes / C20_no_leak quantify over every error value and payload.",
     trusted=["build.rs scanner for `pub fn <name>_<NNN>(` signatures in src/response.rs and its four argument shapes"],
